@@ -1,0 +1,104 @@
+// MIT License
+//
+// Copyright (c) 2022-2026 GoAkt Team
+//
+// Permission is hereby granted, free of charge, to any person obtaining a copy
+// of this software and associated documentation files (the "Software"), to deal
+// in the Software without restriction, including without limitation the rights
+// to use, copy, modify, merge, publish, distribute, sublicense, and/or sell
+// copies of the Software, and to permit persons to whom the Software is
+// furnished to do so, subject to the following conditions:
+//
+// The above copyright notice and this permission notice shall be included in all
+// copies or substantial portions of the Software.
+//
+// THE SOFTWARE IS PROVIDED "AS IS", WITHOUT WARRANTY OF ANY KIND, EXPRESS OR
+// IMPLIED, INCLUDING BUT NOT LIMITED TO THE WARRANTIES OF MERCHANTABILITY,
+// FITNESS FOR A PARTICULAR PURPOSE AND NONINFRINGEMENT. IN NO EVENT SHALL THE
+// AUTHORS OR COPYRIGHT HOLDERS BE LIABLE FOR ANY CLAIM, DAMAGES OR OTHER
+// LIABILITY, WHETHER IN AN ACTION OF CONTRACT, TORT OR OTHERWISE, ARISING FROM,
+// OUT OF OR IN CONNECTION WITH THE SOFTWARE OR THE USE OR OTHER DEALINGS IN THE
+// SOFTWARE.
+
+//go:build verif
+
+package actor
+
+import (
+	"context"
+	"time"
+
+	"github.com/reugn/go-quartz/quartz"
+
+	"github.com/tochemey/goakt/v4/internal/address"
+	"github.com/tochemey/goakt/v4/internal/remoteclient"
+)
+
+// VerifSetRemoting replaces the remoting client of a started actor system by
+// wrap(current client). Actors spawned afterwards (and the relocator created by
+// VerifSpawnRelocator) use the replacement. Verification harness only.
+func VerifSetRemoting(sys ActorSystem, wrap func(remoteclient.Client) remoteclient.Client) {
+	x := sys.(*actorSystem)
+	x.locker.Lock()
+	x.remoting = wrap(x.remoting)
+	x.locker.Unlock()
+}
+
+// VerifHandoffConstants returns the constants that bound relocation handoff
+// masking: handoff window, minimum and maximum backoff, not-found mask window.
+func VerifHandoffConstants() (window, minBackoff, maxBackoff, notFoundWindow time.Duration) {
+	return relocationHandoffWindow, relocationHandoffMinBackoff, relocationHandoffMaxBackoff, relocationNotFoundMaskWindow
+}
+
+// VerifCachePeerRemotingPorts runs cachePeerRemotingPorts (what a NodeJoined
+// event does first).
+func VerifCachePeerRemotingPorts(ctx context.Context, sys ActorSystem) {
+	sys.(*actorSystem).cachePeerRemotingPorts(ctx)
+}
+
+// VerifMarkEndpointRelocating runs markEndpointRelocating for the peers
+// address of a departed node (what a NodeLeft event does on every node).
+func VerifMarkEndpointRelocating(sys ActorSystem, peerAddress string) {
+	sys.(*actorSystem).markEndpointRelocating(peerAddress)
+}
+
+// VerifMarkEndpointRecovered runs markEndpointRecovered.
+func VerifMarkEndpointRecovered(sys ActorSystem, peerAddress string) {
+	sys.(*actorSystem).markEndpointRecovered(peerAddress)
+}
+
+// VerifHandoffMask projects the handoff mask: whether host:port is inside its
+// handoff window and whether any relocation is in flight.
+func VerifHandoffMask(sys ActorSystem, host string, port int) (pinned, inFlight bool) {
+	x := sys.(*actorSystem)
+	return x.isEndpointRelocating(address.New("verif", x.Name(), host, port)), x.relocationInFlight()
+}
+
+// VerifDeliverAcrossHandoff is an entry point for deliverAcrossHandoff.
+func VerifDeliverAcrossHandoff(ctx context.Context, pid *PID, actorName string, maxWait time.Duration, deliver func(context.Context, *PID) (any, error)) (any, error) {
+	return pid.deliverAcrossHandoff(ctx, actorName, maxWait, deliver)
+}
+
+// VerifDeliverBypassingHandoff is an entry point for deliverBypassingHandoff.
+func VerifDeliverBypassingHandoff(ctx context.Context, pid *PID, actorName string, deliver func(context.Context, *PID) (any, error)) (any, error) {
+	return pid.deliverBypassingHandoff(ctx, actorName, deliver)
+}
+
+// VerifFireScheduled executes, on the calling goroutine, the job that the
+// scheduler of sys registered under reference, exactly as the quartz scheduler
+// does when the trigger fires at runTime (Unix nanoseconds): the job's context
+// carries quartz.JobMetadata{RunTime: runTime}. It reports whether a job is
+// registered under reference and the error of the execution.
+func VerifFireScheduled(ctx context.Context, sys ActorSystem, reference string, runTime int64) (found bool, err error) {
+	x := sys.(*actorSystem)
+	jobKey, ok := x.scheduler.scheduledKeys.Get(reference)
+	if !ok {
+		return false, nil
+	}
+	scheduled, err := x.scheduler.quartzScheduler.GetScheduledJob(jobKey)
+	if err != nil {
+		return false, err
+	}
+	ctx = context.WithValue(ctx, quartz.JobMetadataContextKey, quartz.JobMetadata{RunTime: runTime})
+	return true, scheduled.JobDetail().Job().Execute(ctx)
+}
